@@ -1,6 +1,6 @@
 #!/bin/bash
 # usage: tools/sweep.sh <tier> "<seeds>" [props...]  - runs checks for several VERIF_SEED values without touching evidence
-cd /verif
+cd "$(dirname "$0")/.."
 tier=$1; seeds=$2; shift 2
 props=${@:-C01 C02 C03 C04 C05 C06 C07 C08 C09 C10 C11 C12 C13 C14 C15 C16 C17 C18}
 for s in $seeds; do
